@@ -78,6 +78,9 @@ class Tensor:
         self._cache = {}
         self.base = base  # view of another tensor (in-place writes through views are not supported)
         self.tainted = False
+        self._views = []
+        if base is not None and isinstance(base, Tensor):
+            base._views.append(self)
 
     # ---- element access -------------------------------------------------------------------
     def at(self, *idx):
@@ -105,6 +108,15 @@ class Tensor:
             while b is not None:
                 b.tainted = True
                 b = getattr(b, "base", None)
+        # ... and the other direction: a view taken EARLIER (numpy: squeeze, transpose, basic slices) sees a later write to
+        # its base, while the modelled view is a snapshot: every live view (and its views) becomes unreadable too
+        todo = list(self._views)
+        while todo:
+            v = todo.pop()
+            if not v.tainted:
+                v.tainted = True
+                todo.extend(v._views)
+        self._views = []
         self._fn = fn
         self._cache = {}
         c = ctx()
